@@ -35,7 +35,7 @@ type RCase struct {
 	CfgExpiry  uint32 // configured session_expiry in seconds (2 or 7200)
 	ReqExpiry  int64  // v5 requested expiry; -1 = absent; v3: 0 = clean session, 1 = non-clean
 	ConnectFor int    // ms the first connection stays up
-	End        string // disconnect | disconnect_new_expiry | close
+	End        string // disconnect | disconnect_new_expiry | disconnect_refused_expiry | close
 	NewExpiry  uint32 // for disconnect_new_expiry
 	OfflineMs  int    // ms offline before reconnecting
 	Terminate  bool   // TerminateSession while offline
@@ -189,6 +189,11 @@ func runResume(c RCase, idx int) (fs []finding, incon string, rerr error) {
 		case "disconnect":
 			c1.Disconnect(0, nil)
 		case "disconnect_new_expiry":
+			ne := c.NewExpiry
+			c1.Disconnect(0, &mqttx.Props{SessionExpiry: &ne})
+		case "disconnect_refused_expiry":
+			// MQTT 5 3.14.2.2.2: a session that was given expiry 0 at CONNECT must not be given another one at DISCONNECT;
+			// the broker refuses the packet (protocol error) and the session ends with the connection, as CONNECT said
 			ne := c.NewExpiry
 			c1.Disconnect(0, &mqttx.Props{SessionExpiry: &ne})
 		case "close":
@@ -401,6 +406,8 @@ func resumeCases(rng *rand.Rand, n int) []RCase {
 		{V: 5, CfgExpiry: 7200, ReqExpiry: 3600, End: "disconnect_new_expiry", NewExpiry: 0, OfflineMs: 100, Sweep: true}, //
 		{V: 5, CfgExpiry: 7200, ReqExpiry: 1, End: "disconnect_new_expiry", NewExpiry: 3, OfflineMs: 1900},                // raised: still there after the CONNECT value
 		{V: 5, CfgExpiry: 7200, ReqExpiry: 3600, End: "disconnect_new_expiry", NewExpiry: 1, OfflineMs: 1900},             // lowered: gone before the CONNECT value
+		{V: 5, CfgExpiry: 7200, ReqExpiry: 0, End: "disconnect_refused_expiry", NewExpiry: 30, OfflineMs: 100},             // refused DISCONNECT: the session ends as CONNECT said
+		{V: 5, CfgExpiry: 7200, ReqExpiry: -1, End: "disconnect_refused_expiry", NewExpiry: 3600, OfflineMs: 100},          //
 		{V: 5, CfgExpiry: 2, ReqExpiry: 3600, End: "disconnect", OfflineMs: 2900},                                         // capped by the configuration
 		{V: 5, CfgExpiry: 7200, ReqExpiry: 3600, End: "disconnect", OfflineMs: 100, Sweep: true},
 	}
@@ -435,9 +442,15 @@ func resumeCases(rng *rand.Rand, n int) []RCase {
 			}
 		}
 		if c.End == "disconnect_new_expiry" {
-			base := c.effExpiry()
+			c.End = "disconnect"
+			base := c.effExpiry() // what CONNECT gave the session
+			c.End = "disconnect_new_expiry"
 			if base == 0 {
 				c.End = "disconnect" // a session with expiry 0 must not be given a non-zero one at DISCONNECT
+				if c.CfgExpiry > 2 && rng.Intn(2) == 0 {
+					c.End = "disconnect_refused_expiry" // ... and when a client tries, the session still ends with the connection
+					c.NewExpiry = []uint32{1, 30, 3600}[rng.Intn(3)]
+				}
 			} else {
 				c.NewExpiry = []uint32{0, 1, 2, 3}[rng.Intn(4)]
 				if int64(c.NewExpiry) > int64(c.CfgExpiry) {
@@ -453,6 +466,9 @@ func resumeCases(rng *rand.Rand, n int) []RCase {
 		switch x := rng.Intn(10); {
 		case x < 2:
 			c.Takeover = true
+			if c.End == "disconnect_new_expiry" || c.End == "disconnect_refused_expiry" {
+				c.End = "disconnect" // no DISCONNECT is sent when the second connection takes over: nothing changes the expiry
+			}
 		case x < 3:
 			c.Terminate = true
 			c.OfflineMs = 100
